@@ -143,3 +143,11 @@ package specs
 // ---- unicode -------------------------------------------------------------------------------------------
 //@ func unicode/utf8.Valid
 //@ pure
+
+// Unicode normalisation (golang.org/x/text): an uninterpreted function of the form and the string
+//@ spec normForm(f int, s string) string
+//@ func golang.org/x/text/unicode/norm.(Form).String
+//@ assigns nothing
+//@ ensures result == normForm(int(f), s)
+//@ func golang.org/x/text/unicode/norm.(Form).IsNormal
+//@ assigns nothing
